@@ -111,16 +111,12 @@ def run_unit(unit, repo, workdir, twin=False, timeout=900, rlimit=None):
             funcs[name] = {"success": bool(fb["success"]), "time_us": fb.get("time-micros", 0), "rlimit": fb.get("rlimit", 0), "mode": fb.get("mode:", "")}
     res["functions"] = funcs
     res["smt_ms"] = smt.get("total", 0)
-    hard = [e for e in errs if e["level"] == "error" and not e["msg"].startswith("aborting due to")
-            and not any(k in e["msg"] for k in VERIF_MSGS) and not any(k in e["msg"] for k in UNDECIDED_MSGS)]
-    if vr.get("encountered-vir-error") or not funcs or (hard and not vr):
+    # Front-end problems (rustc errors, unsupported constructs, VIR errors) stop Verus before any SMT query: then there is no
+    # per-function breakdown and nothing about the program was decided.  Once the breakdown exists every `error:` block is a
+    # verification failure of the function it points into.
+    if vr.get("encountered-vir-error") or not funcs:
         res["status"] = "tool-error"
-        res["detail"] = "; ".join(e["msg"] for e in hard[:5]) or p.stderr[-1500:]
-        return res
-    if hard:
-        # rustc / verus front-end errors: nothing about the program was decided
-        res["status"] = "tool-error"
-        res["detail"] = "; ".join(e["msg"] for e in hard[:5])
+        res["detail"] = "; ".join(e["msg"] for e in errs if e["level"] == "error" and not e["msg"].startswith("aborting"))[:1500] or p.stderr[-1500:]
         return res
     res["undecided_msgs"] = [e["msg"] for e in errs if any(k in e["msg"] for k in UNDECIDED_MSGS)]
     res["status"] = "ok" if vr.get("success") else "failed"
@@ -128,12 +124,15 @@ def run_unit(unit, repo, workdir, twin=False, timeout=900, rlimit=None):
 
 
 def fn_key_candidates(x):
-    """names under which Verus may report an extracted function"""
+    """suffixes under which Verus may report an extracted function (module prefix varies per unit)"""
     c = []
     if x.get("owner"):
         o = re.sub(r"<.*>", "", x["owner"])
-        c.append("code::%s::%s" % (o, x["name"]))
-    c.append("code::%s" % x["name"])
+        o = o.replace("&", "").replace("'a", "").replace("'_", "").strip()
+        o = o.split("::")[-1]
+        c.append("%s::%s" % (o, x["name"]))
+    else:
+        c.append(x["name"])
     return c
 
 
@@ -146,8 +145,13 @@ def match_extracted(funcs, report):
             continue
         hit = None
         for cand in fn_key_candidates(x):
-            if cand in funcs and cand not in used:
-                hit = cand
+            for k in funcs:
+                if k in used or k.startswith("shims::") or k.startswith("spec::"):
+                    continue
+                if k == cand or k.endswith("::" + cand):
+                    hit = k
+                    break
+            if hit:
                 break
         if hit is None:
             # generic / blanket impls are reported as code::impl&%N::name
